@@ -162,9 +162,7 @@ theorem exo_axes (tiny : K) (f : ExoFile K) :
 /-! ## HITRAN -/
 
 omit [IsStrictOrderedRing K] in
-/-- negative HITRAN entries are clipped: every value the reader stores is ≥ 0.
-    (Not proved: non-negativity of the values `fill_temperature` interpolates between two stored rows for files with
-    several ranges; the harness evaluates that predicate on every loaded table.) -/
+/-- negative HITRAN entries are clipped: every value the reader stores is ≥ 0 -/
 theorem hitran_clip_nonneg (s : K) : 0 ≤ clipSigma s := by
   unfold clipSigma
   simp only
@@ -173,6 +171,33 @@ theorem hitran_clip_nonneg (s : K) : 0 ≤ clipSigma s := by
   · exact not_lt.mp h
 
 example : clipSigma (-3 : ℚ) = 0 ∧ clipSigma (20000000000 : ℚ) = 2 := by decide +kernel
+
+/-- no negative cross-section reaches the unified table of ANY HITRAN file (any number of wavenumber ranges, any
+    block order, any temperatures per range): stored values are clipped, `fill_temperature` adds zero rows outside a
+    range's own temperature span and, inside it, the linear interpolation of the two rows whose temperatures bracket
+    the missing one (a convex combination: `searchsorted(side='right')-1` on the sorted list brackets `t` because the
+    range's minimum temperature is in the list and is ≤ t), and `compute_final_grid` only places those rows. -/
+theorem hitran_nonneg (blocks : List (HBlock K)) : ∀ row ∈ (decHitran blocks).x, ∀ v ∈ row, 0 ≤ v :=
+  decHitran_nonneg blocks
+
+/-- the ingredient of `hitran_nonneg` for one filled-in temperature: between two non-negative rows whose temperatures
+    bracket `t` the interpolated value is non-negative -/
+theorem hitran_interp_nonneg {u v t a b : K} (hu : 0 ≤ u) (hv : 0 ≤ v) (h1 : a ≤ t) (h2 : t ≤ b) :
+    0 ≤ Interp.interpLin u v t a b := interpLin_nonneg hu hv h1 h2
+
+/-- non-vacuity: a two-range file (range 10–30 cm⁻¹ at T = 100, 200, 300 with a negative entry; range 50 cm⁻¹ only at
+    T = 100 and 300, so its T = 200 row is interpolated): the reader's first stage stores what is expected -/
+example :
+    let blocks : List (HBlock ℚ) :=
+      [⟨"H2-He", 10, 30, 100, 1, [(10, 10000000000), (30, -5)]⟩, ⟨"H2-He", 50, 50, 100, 1, [(50, 20000000000)]⟩,
+       ⟨"H2-He", 10, 30, 200, 1, [(10, 30000000000), (30, 0)]⟩,
+       ⟨"H2-He", 10, 30, 300, 1, [(10, 0), (30, 0)]⟩, ⟨"H2-He", 50, 50, 300, 1, [(50, 40000000000)]⟩]
+    (hLoad blocks).1 = [100, 200, 300] ∧
+    (hLoad blocks).2.map (fun g => (g.key, g.wn, g.ts)) =
+      [((10, 30), [10, 30], [(100, [1, 0]), (200, [3, 0]), (300, [0, 0])]),
+       ((50, 50), [50], [(100, [2]), (300, [4])])] ∧
+    Interp.interpLin (2 : ℚ) 4 200 100 300 = 3 := by
+  decide +kernel
 
 /-- the 3-temperature, 2-wavenumber CIA table used for the non-vacuity examples -/
 def exCTab : CTab ℚ := ⟨[20, 40], [200, 300, 500], [[1, 2], [3, 0], [5, 6]]⟩
@@ -262,6 +287,36 @@ theorem interp_effective (fs : List Dir) (s : CSt) (k : Nat) (ops : List COp) (m
   unfold interpOr
   rw [step_get_interp, run_interp fs ops _ hops]
   rfl
+
+/-- history freedom: what a `get` serves from a file is — as a table: source file, interpolation mode, name, memory
+    flag; everything but the object identity — exactly what the same `get` serves on an emptied cache with the same
+    configuration.  It depends only on (contents of the configured path, mode), not on the gets, adds, clears and mode
+    changes before it.  Premise: the path was not changed since the cache was last emptied (`set_opacity_path`
+    does not clear, so an object loaded from the previous path keeps being served — that is the code's behaviour and
+    is exactly what `c` / `hops` exclude). -/
+theorem served_values_history_free (fs : List Dir) (hc : consistent fs) (s : CSt) (c : COp) (hcl : c.clears = true)
+    (ops : List COp) (hops : ∀ op ∈ ops, ∀ p, op ≠ .setPath p) (m : String) (o : Obj)
+    (h : (step fs (run fs (step fs s c).1 ops) (.get m)).2 = .served o) (hsrc : o.src ≠ none) :
+    ∃ o', (step fs { run fs (step fs s c).1 ops with dict := [] } (.get m)).2 = .served o' ∧
+      o'.src = o.src ∧ o'.mode = o.mode ∧ o'.mol = o.mol ∧ o'.inMem = o.inMem := by
+  have hinv := run_pathInv fs hc ops _ hops (pathInv_of_clears fs s c hcl)
+  obtain ⟨e, hfm, h1, h2, h3, h4⟩ := step_get_fromFile fs hc _ hinv m o h hsrc
+  refine ⟨_, step_get_fresh fs hc { run fs (step fs s c).1 ops with dict := [] } rfl m e hfm, ?_⟩
+  have hd : e.disc = m := by
+    have := List.find?_some hfm; simpa using this
+  have hobj : e.obj = m :=
+    (curFiles_consistent hc _ e (List.mem_of_find?_eq_some hfm)).trans hd
+  exact ⟨h1.symm, h2.symm, hobj.trans h3.symm, h4.symm⟩
+
+/-- non-vacuity / sharpness: the premise cannot be dropped — after `setPath` without a clear the object of the old
+    directory is still served (file 0), while an emptied cache would load file 1 -/
+example :
+    let fs : List Dir := [{ isDir := true, files := [⟨.pickle, 0, "H2O", "H2O"⟩] },
+                          { isDir := true, files := [⟨.pickle, 1, "H2O", "H2O"⟩] }]
+    trace fs init [.setPath 0, .get "H2O", .setPath 1, .get "H2O", .clear, .get "H2O"] =
+      [.done, .served ⟨0, "H2O", 0, none, some 0⟩, .done, .served ⟨0, "H2O", 0, none, some 0⟩, .done,
+       .served ⟨1, "H2O", 0, none, some 1⟩] := by
+  decide +kernel
 
 /-- a molecule that is neither cached nor discoverable under the configured path raises, leaving the cache as it was -/
 theorem get_missing_error (fs : List Dir) (s : CSt) (m : String) (hd : lookup s.dict m = none)
